@@ -533,8 +533,11 @@ class SVGPath(SVGShape, SVGCommandSeq):
         if not inplace:
             target = copy.deepcopy(self)
 
+        # judge each subpath with the paint (fill, stroke, opacity, ...) of the path it is part of
         target.d = " ".join(
-            subpath for subpath in self.subpaths() if SVGPath(d=subpath).might_paint()
+            subpath
+            for subpath in self.subpaths()
+            if dataclasses.replace(self, d=subpath).might_paint()
         )
 
         return target
